@@ -1,0 +1,54 @@
+//go:build verif
+
+package main
+
+// Verification hook (build tag "verif" only; nothing of this file is compiled without the tag).
+//
+// validateTileMatrixSet is unexported and the command line accepts built-in tile matrix sets by name
+// only, so its behaviour on any other set cannot be observed from outside.  With the tag on,
+//
+//	texel verif-validate <tile matrix set document>.json '[<tile matrix id>, ...]'
+//
+// loads the document with tms20.LoadJSONTileMatrixSet, calls validateTileMatrixSet on it and prints
+// exactly one line to standard output: "accept", "reject: <error>", "panic: <value>" or
+// "load-error: <error>", then exits with status 0.  Any other command line is left alone.
+
+import (
+	"encoding/json"
+	"fmt"
+	"os"
+	"strings"
+
+	"github.com/pdok/texel/tms20"
+)
+
+func verifOneLine(s string) string {
+	return strings.NewReplacer("\n", " ", "\r", " ").Replace(s)
+}
+
+func verifValidate(path string, idsJSON string) (line string) {
+	defer func() {
+		if p := recover(); p != nil {
+			line = "panic: " + verifOneLine(fmt.Sprint(p))
+		}
+	}()
+	var ids []tms20.TMID
+	if err := json.Unmarshal([]byte(idsJSON), &ids); err != nil {
+		return "load-error: tile matrix ids: " + verifOneLine(err.Error())
+	}
+	tms, err := tms20.LoadJSONTileMatrixSet(path)
+	if err != nil {
+		return "load-error: " + verifOneLine(err.Error())
+	}
+	if err := validateTileMatrixSet(tms, ids); err != nil {
+		return "reject: " + verifOneLine(err.Error())
+	}
+	return "accept"
+}
+
+func init() {
+	if len(os.Args) >= 4 && os.Args[1] == "verif-validate" {
+		fmt.Println(verifValidate(os.Args[2], os.Args[3]))
+		os.Exit(0)
+	}
+}
